@@ -587,6 +587,10 @@ class Name:
                 label = name
                 name = None
                 ind = len(label)
+            if ind > 63:
+                # RFC 1035 section 2.3.4: labels are 63 octets or less; the
+                # two high bits of the length octet mark a compression pointer.
+                raise ValueError(f"DNS label too long ({ind} > 63): {label!r}")
             strio.write(_ord2bytes(ind))
             strio.write(label)
         strio.write(b"\x00")
